@@ -221,10 +221,18 @@ def unused_file(rng, idx):
             imports.append(("import %s.%s;" % (p, n), n, False))
         elif r < 0.93:
             imports.append(("import %s.*;" % p, None, True))
-        else:
+        elif r < 0.965:
             imports.append(("import static %s.%s.%s;" % (p, n, "make" + n), "make" + n, rng.random() < 0.5))
             if imports[-1][2]:
                 uses.append(("staticcall", "make" + n))
+        else:
+            # a statically imported constant, referenced as a bare name somewhere in the file (or not at all)
+            cn = "MAX_" + n.upper().replace("É", "E")
+            imports.append(("import static %s.%s.%s;" % (p, n, cn), cn, rng.random() < 0.6))
+            if imports[-1][2] and kind == "class":
+                uses.append((rng.choice(["constfield", "constcmp", "constdim", "constassign", "constarg", "constret", "constanno"]), cn))
+            elif imports[-1][2]:
+                imports[-1] = (imports[-1][0], cn, False)
     lines = []
     if rng.random() < 0.3:
         lines.append("// header é — comment")
@@ -275,6 +283,20 @@ def unused_file(rng, idx):
         elif how == "local":
             methods.append("    void lo%s() { %s v = null; }" % (n, n))
         # the import is used only as the outer name of a nested type: Map.Entry<String, String>, Outer.Inner
+        elif how == "constfield":
+            fields.append("    private int k%s = %s;" % (n.lower(), n))
+        elif how == "constcmp":
+            methods.append("    boolean cc%s(int k) { return k > %s; }" % (n.lower(), n))
+        elif how == "constdim":
+            methods.append("    int[] cd%s() { return new int[%s]; }" % (n.lower(), n))
+        elif how == "constassign":
+            methods.append("    void ca%s() { int k; k = %s; }" % (n.lower(), n))
+        elif how == "constarg":
+            methods.append("    void cg%s() { run(1, %s); }" % (n.lower(), n))
+        elif how == "constret":
+            methods.append("    int cr%s() { return %s; }" % (n.lower(), n))
+        elif how == "constanno":
+            fields.append("    @Size(max = %s) private int z%s;" % (n, n.lower()))
         elif how == "nestedfield":
             fields.append("    private %s.Entry<String, String> n%s;" % (n, n.lower()))
         elif how == "nestedparam":
@@ -346,7 +368,7 @@ RULES = {
 }
 ASSUMPTIONS = ["C05: 'the calls the model attributes to the method' are read from the real code model (Package+NodeName, FunctionName), their places from the renderer's token positions",
                "C05: the new name is not already a member name of the project; identifiers are ASCII",
-               "C06: one import per line; a static import counts as used iff its member name is called"]
+               "C06: one import per line; a static import counts as used iff its member name is called or referenced as a bare name"]
 TRUSTED = ["vlib/javagen.py renderer and token positions", "ANTLR Java parser"]
 
 
